@@ -52,6 +52,26 @@ Definition k_rng k := match k with Block _ _ _ _ _ _ a _ _ => a end.
 Definition k_def_rng k := match k with Block _ _ _ _ _ _ _ a _ => a end.
 Definition k_body k := match k with Block _ _ _ _ _ _ _ _ a => a end.
 
+(* induction principle that reaches the blocks nested in a body *)
+Section BodyInd.
+  Variable P : body -> Prop.
+  Variable Q : block -> Prop.
+  Hypothesis Hbody : forall attrs blocks r e, Forall Q blocks -> P (Body attrs blocks r e).
+  Hypothesis Hblock : forall t ls lrs tr o c r d b, P b -> Q (Block t ls lrs tr o c r d b).
+  Fixpoint body_ind' (b : body) : P b :=
+    match b with
+    | Body attrs blocks r e =>
+        Hbody attrs blocks r e
+          ((fix go (l : list block) : Forall Q l :=
+              match l with
+              | [] => Forall_nil Q
+              | k :: rest => Forall_cons k (block_ind' k) (go rest)
+              end) blocks)
+    end
+  with block_ind' (k : block) : Q k :=
+    match k with Block t ls lrs tr o c r d b => Hblock t ls lrs tr o c r d b (body_ind' b) end.
+End BodyInd.
+
 Fixpoint find_attr (n : string) (l : list attr) : option attr :=
   match l with
   | [] => None
